@@ -522,14 +522,20 @@ package core
 //@   call ReverseIndexFile#1 assert [chunk-file] $chunk == chunkIndex
 //@   call ReverseIndexFile#1 bind file = $ret0
 //@   call newDBReader#1 assert [bounded-chunk] $maxKeys == chunkSize && $indexTime == indexTime && $db == db
+//@   call Sprintf#1 assert [mark-names-the-chunk] len($1) == 1
+//@   call Sprintf#1 bind cm = $ret0
+//@   call newDBReader#1 assert [retry-streams-its-own-keys-again] cm_set && len($mark) == 1 && $mark[0] == cm
 //@   call Delete#1 assert [chunk-file] file_set && $key == file
 //@   call Put#1 assert [chunk-file-created] file_set && $key == file && $noOverwrite == storage.NoOverWrite
 
-// streaming a key into a chunk must not record it as uploaded: the chunk write may still fail
-// (known finding K12: the key is marked inside Read)
+// a key is stamped while it is streamed into a chunk, before the chunk write is known to have succeeded: the
+// stamp is the mark of THAT chunk, and a retry of the same chunk streams again the keys carrying its own
+// mark, so that a failed write loses no key (was known finding K12: one constant mark, retries skipped them)
 //@ func (*dbReader).Read
-//@   call Set#1 bind marked = $1
-//@   ensures [streaming-does-not-mark] !marked_set
+//@   call Set#1 assert [stamped-with-the-mark-of-this-chunk] $2 == r.mark
+//@ func newDBReader
+//@   ensures [default-mark-is-never-streamed-again] len(mark) == 0 ==> !result.remark
+//@   ensures [a-chunk-mark-is-streamed-again-on-retry] len(mark) > 0 && mark[0] != "" ==> result.remark && result.maxKeys == maxKeys
 
 // resumed builds: the last chunk index found is the largest one
 //@ func copyIndexChunks
@@ -758,6 +764,7 @@ package core
 // keys already marked as uploaded are skipped and do not count against the size of the chunk (otherwise
 // the second chunk would see only marked keys, upload nothing, and the build would end with a truncated index)
 //@ func (*dbReader).iterateKV$1
-//@   loop 1 step [marked-keys-do-not-count] len(val) > 0 ==> iterated == prev(iterated)
+//@   call Equal#1 bind own = $ret0
+//@   loop 1 step [keys-of-other-chunks-do-not-count] len(val) > 0 && !r.remark ==> iterated == prev(iterated)
 //@   loop 1 step [each-offered-key-counts-once] len(val) == 0 ==> iterated == prev(iterated) + 1
-//@   send r.out#1 assert [an-unmarked-key-within-the-chunk] $val == key && len(val) == 0 && iterated <= r.maxKeys
+//@   send r.out#1 assert [an-unmarked-or-own-key-within-the-chunk] $val == key && (len(val) == 0 || r.remark) && iterated <= r.maxKeys
